@@ -280,7 +280,8 @@ pub fn parse_cmd(b: &[u8]) -> Option<(ReqHdr, Cmd)> {
         },
         NOOP if body.is_empty() => Cmd::Noop,
         VERSION if body.is_empty() => Cmd::Version,
-        STAT if body.is_empty() => Cmd::Stat,
+        // `stat <group>` carries the group name as key (what libmemcached and memcached-tool send)
+        STAT if el == 0 && value.is_empty() => Cmd::Stat,
         QUIT | QUITQ if body.is_empty() => Cmd::Quit { quiet: h.opcode == QUITQ },
         0x1c | 0x1d | 0x1e | 0x20 | 0x21 | 0x22 | 0x23 | 0x24 => Cmd::Unsupported,
         _ => Cmd::NonStandard,
